@@ -292,5 +292,11 @@ func zzC01Run(whole bool) {
 		return
 	}
 	zzverif.AssertKF(zzC01HdrCon.ProposerThreshold == cp.ProposerThreshold, "the proposer credential is verified under the protocol's proposer threshold", "C01-header-chosen-thresholds", true)
+	// ... and the credential itself verifies: proof under the proposer's key for (seed, round index,
+	// proposal step), and the claimed priority is the largest hash over the seats claimed
+	mP := MakeM(seed, uint32(UConStepProposal), zzC01HdrCon.RoundIndex)
+	zzverif.Assert(zzC01ProofOK(zzC01Proposer, mP, zzC01HdrCon.SortitionProof), "the proposer's sortition proof verifies under its key for this seed, round index and the proposal step")
+	value := common.Hash(zzverif.UF32("vrfValue", zzC01Proposer, mP))
+	zzverif.Assert(zzC01HdrCon.Priority == VrfComputePriority(value, zzC01HdrCon.SubUsers), "the header's priority is the largest hash over the proposer's seats")
 	zzverif.Reach("end")
 }
